@@ -189,6 +189,8 @@ func casesIterative(c *caseCtx) {
 		{"go wtime 800 btime 60000 winc 20000 binc 0 movestogo 1", "", 800 * time.Millisecond},
 		{"go wtime 60000 btime 700 winc 0 binc 60000", " moves e2e4", 700 * time.Millisecond},
 		{"go wtime 900 btime 900 movestogo 1", "", 900 * time.Millisecond},
+		{"go wtime 2000 btime 2000 movestogo 1", " moves e2e4 e7e5 g1f3 b8c6", 2 * time.Second}, // score swings between depths (Nxe5)
+		{"go wtime 1500 btime 1500 movestogo 2", " moves e2e4 e7e5 g1f3 b8c6", 1500 * time.Millisecond},
 	}
 	nclk := 0
 	for _, ck := range clocks {
